@@ -757,7 +757,7 @@ Proof.
     rewrite KSF, LHB. change (Z.of_nat HMAC_SZ) with 32. change (Z.of_nat KS_SZ) with 1424. destruct (m_ks x); lia. }
   assert (Ldata : length data = (length F + S)%nat).
   { unfold data, with_hmac, S. destruct (has c MixinHmacMandatory) eqn:HM; [|lia].
-    rewrite !app_length, firstn_length, skipn_length. specialize (LF64 eq_refl). fold HB. lia. }
+    rewrite !app_length, firstn_length, skipn_length. specialize (LF64 eq_refl). unfold HB, hm. lia. }
   (* total length *)
   assert (TL : total_len c x + Z.of_nat sg = zlen data).
   { unfold total_len. rewrite (sum_len_v1 x (c_mixins c) (Z.of_nat (length cb)) W' Wnd).
@@ -770,7 +770,7 @@ Proof.
     rewrite <- TBL. fold (zlen (tz_export (m_tz x))). unfold tzb_of.
     assert (KSZ : (if existsb (mixin_eqb MixinKeyStore) (c_mixins c) then opt_len (m_ks x) else 0)
                   = Z.of_nat (match m_ks x with Some _ => 1424 | None => 0 end)).
-    { destruct (m_ks x) as [b0|] eqn:Eb; [|destruct (existsb _ _); reflexivity].
+    { destruct (m_ks x) as [b0|] eqn:Eb; [|destruct (existsb (mixin_eqb MixinKeyStore) (c_mixins c)); reflexivity].
       destruct (KSL b0 eq_refl) as [Lb HAk]. rewrite has_attr_gives, G4 in HAk. unfold hasl in HAk. rewrite HAk. cbn [opt_len]. unfold zlen. now rewrite Lb. }
     rewrite KSZ.
     destruct (existsb (mixin_eqb MixinTrustZone) (c_mixins c)), (existsb (mixin_eqb MixinTrustZoneMandatory) (c_mixins c));
@@ -822,7 +822,9 @@ Proof.
          rewrite (app_assoc app' tb), (app_assoc (app' ++ tb) cb);
          rewrite skipn_app_exact' by (rewrite !app_length; lia);
          symmetry; apply firstn_app_exact'; lia). }
-    destruct m; try discriminate Hal; try discriminate Sm; try (apply TZP; auto).
+    destruct m; try discriminate Hal; try discriminate Sm.
+    - apply TZP; now left.
+    - apply TZP; now right.
     - (* MixinCertBlockV1 *)
       unfold mix_parse, upd. rewrite OFF. cbn [bind]. rewrite SKC, SGE, CP. cbn [bind]. now rewrite HC.
     - (* MixinKeyStore *)
@@ -842,7 +844,7 @@ Proof.
   rewrite (rounds_result c x dek tzsize sigsz data NE PO) by (intros _; split; [rewrite G5; exact Wv1 | eauto]). cbn [bind].
   set (st := rounds_state c x dek).
   assert (STC : m_cert st = Some (CertV1 pre post sg)) by (unfold st, rounds_state; cbn [m_cert]; rewrite G5; unfold hasl; unfold has in Wv1; now rewrite Wv1).
-  rewrite (FREV st). cbn [bind]. fold F. rewrite FE.
+  unfold data. rewrite (FREV st). cbn [bind]. rewrite FE.
   assert (SR : sign_revert c st (A ++ sig) = Ok A).
   { unfold sign_revert. rewrite Psign, STC. destruct (A ++ sig) as [|a0 r0] eqn:Q.
     - apply (f_equal (@length N)) in Q. rewrite app_length, Lsig in Q. simpl in Q. lia.
@@ -855,4 +857,224 @@ Proof.
   rewrite (reloc_cut_ok c x st app' tb R1 R2 R3 Wi) by (try assumption; try lia; reflexivity). cbn [bind fst snd].
   assert (CL : clean_ivt app' = clean_ivt (m_app x)) by (eapply clean_update; eassumption).
   rewrite CL, pad4_id by (rewrite clean_ivt_length; assumption). reflexivity.
+Qed.
+
+Lemma wf_v21_ivt c : wf_v21 c = true -> has_attr c AIvtTable = true.
+Proof. intros W. unfold wf_v21 in W. wf_split W. assumption. Qed.
+Lemma wf_v1_ivt c : wf_v1 c = true -> has_attr c AIvtTable = true.
+Proof. intros W. unfold wf_v1 in W. wf_split W. assumption. Qed.
+
+Lemma roundtrip_v21_full :
+  forall (k : crypto) (c : mbi_class) (x : mbi) (tzsize sigsz : nat) (dek : option (list N)) (im b : list N) (sg : nat),
+    wf_v21 c = true ->
+    (56 <= length (m_app x))%nat -> (length (m_app x) mod 4 = 0)%nat ->
+    0 <= m_subtype x < 4 -> 0 <= m_imgver x < 65536 ->
+    m_cert x = Some (CertV21 b sg) -> cert21_wf b -> sigsz = sg -> (0 < sg)%nat ->
+    (forall d, length (k_sign k d) = sg) -> (forall a d, length (k_hash k a d) = natz (hash_size a)) ->
+    (forall d, m_tz x = TzCustom d -> length d = tzsize /\ (0 < tzsize)%nat) ->
+    0 <= m_digest x <= 3 -> (has c MixinManifestCrc = true -> m_digest x = 0) ->
+    m_table x = None ->
+    export_mbi k c x = Ok im ->
+    parse_mbi k c tzsize sigsz dek im = Ok (parsed c x dek) /\
+    (canonical c x dek -> parsed c x dek = set_app x (clean_ivt (m_app x)) /\ export_mbi k c (parsed c x dek) = Ok im).
+Proof.
+  intros. split; [eapply roundtrip_v21; eassumption|].
+  intros C. split; [now apply parsed_canonical | apply reexport_parsed; auto using wf_v21_ivt].
+Qed.
+
+Lemma roundtrip_v1_full :
+  forall (k : crypto) (c : mbi_class) (x : mbi) (tzsize sigsz : nat) (dek : option (list N)) (im pre post : list N) (sg : nat),
+    wf_v1 c = true ->
+    (56 <= length (m_app x))%nat -> (length (m_app x) mod 4 = 0)%nat ->
+    0 <= m_subtype x < 4 -> 0 <= m_imgver x < 65536 ->
+    m_cert x = Some (CertV1 pre post sg) -> cert1_wf pre post -> sigsz = sg -> (0 < sg)%nat ->
+    (forall d, length (k_sign k d) = sg) -> (forall key data, length (k_hmac k key data) = 32%nat) ->
+    (forall b, m_ks x = Some b -> length b = 1424%nat /\ has_attr c AKeyStore = true) ->
+    (forall d, m_tz x = TzCustom d -> length d = tzsize /\ (0 < tzsize)%nat) ->
+    (forall es, m_table x = Some es -> has_attr c AAppTable = true /\ entries_ok es) ->
+    export_mbi k c x = Ok im ->
+    parse_mbi k c tzsize sigsz dek im = Ok (parsed c x dek) /\
+    (canonical c x dek -> parsed c x dek = set_app x (clean_ivt (m_app x)) /\ export_mbi k c (parsed c x dek) = Ok im).
+Proof.
+  intros. split; [eapply roundtrip_v1; eassumption|].
+  intros C. split; [now apply parsed_canonical | apply reexport_parsed; auto using wf_v1_ivt].
+Qed.
+
+(* the hypotheses are satisfiable: database classes, concrete certificate blocks *)
+Definition k_ex (sg : nat) : crypto :=
+  {| k_sign := fun _ => zeros sg; k_hmac := fun _ _ => zeros 32; k_ctr := fun _ _ _ d => d;
+     k_hash := fun a _ => zeros (natz (hash_size a)) |}.
+Example cert1_wf_instance : cert1_wf ([99; 101; 114; 116; 1; 0; 0; 0; 32; 0; 0; 0] ++ zeros 8)%N (zeros 136).
+Proof.
+  unfold cert1_wf. split; [reflexivity|]. split; [reflexivity|]. split; [reflexivity|].
+  split; [rewrite zeros_length; lia|]. split; [vm_compute; discriminate | vm_compute; reflexivity].
+Qed.
+Example cert21_wf_instance : cert21_wf ([99; 104; 100; 114; 1; 0; 2; 0; 16; 0; 0; 0] ++ zeros 4)%N.
+Proof. unfold cert21_wf. split; [simpl; lia|]. split; vm_compute; reflexivity. Qed.
+Example wf_v1_instance :
+  wf_v1 {| c_type := 1; c_mixins := [MixinApp; MixinRelocTable; MixinLoadAddress; MixinIvt; MixinTrustZone; MixinCertBlockV1;
+                                     MixinHmacMandatory; MixinKeyStore; MixinHwKey; ExportMixinAppTrustZoneCertBlock;
+                                     ExportMixinRsaSign; ExportMixinHmacKeyStoreFinalize] |} = true /\
+  wf_v21 {| c_type := 4; c_mixins := [MixinApp; MixinIvt; MixinLoadAddress; MixinCertBlockV21; MixinManifestDigest;
+                                      ExportMixinAppCertBlockManifest; ExportMixinEccSign] |} = true.
+Proof. split; vm_compute; reflexivity. Qed.
+
+(* ================================================================== encrypted + signed load-to-RAM images (RT5xx / RT6xx) *)
+Definition allowed_enc (m : mixin) : bool :=
+  match m with
+  | MixinApp | MixinIvt | MixinIvtZeroTotalLength | MixinTrustZone | MixinTrustZoneMandatory | MixinLoadAddress
+  | MixinLoadAddressOptional | MixinHwKey | MixinRelocTable | MixinCertBlockV1 | MixinHmacMandatory | MixinKeyStore
+  | MixinCtrInitVector
+  | ExportMixinAppTrustZoneCertBlockEncrypt | ExportMixinRsaSign | ExportMixinHmacKeyStoreFinalize => true
+  | _ => false
+  end.
+Definition wf_enc (c : mbi_class) : bool :=
+  forallb allowed_enc (c_mixins c) && nodupb (c_mixins c) && has c MixinApp && has_attr c AIvtTable &&
+  (0 <? c_type c) && (c_type c <? 64) && has c MixinCertBlockV1 &&
+  xorb (has c MixinTrustZone) (has c MixinTrustZoneMandatory) && has c MixinHmacMandatory && has c MixinCtrInitVector &&
+  (opt_mixin_id (provider c SCollect) =? mixin_id ExportMixinAppTrustZoneCertBlockEncrypt) &&
+  (opt_mixin_id (provider c SDisassemble) =? mixin_id ExportMixinAppTrustZoneCertBlockEncrypt) &&
+  (opt_mixin_id (provider c SEncrypt) =? mixin_id ExportMixinAppTrustZoneCertBlockEncrypt) &&
+  (opt_mixin_id (provider c SPostEncrypt) =? mixin_id ExportMixinAppTrustZoneCertBlockEncrypt) &&
+  (opt_mixin_id (provider c SSign) =? mixin_id ExportMixinRsaSign) &&
+  (opt_mixin_id (provider c SFinalize) =? mixin_id ExportMixinHmacKeyStoreFinalize).
+
+Lemma enc_def_none m : allowed_enc m = true -> unsupported_mixin m = false /\ is_manifest_mixin m = false.
+Proof. destruct m; intros H; try discriminate H; repeat split. Qed.
+
+Lemma sum_len_enc x l cbn_ :
+  forallb allowed_enc l = true -> nodupb l = true -> (forall cb, m_cert x = Some cb -> Z.of_nat (cert_size cb) = cbn_) ->
+  sumz (map (mix_len x) l) =
+  (if hasl l MixinApp then zlen (m_app x) else 0) + (if hasl l MixinTrustZone then zlen (tz_export (m_tz x)) else 0) +
+  (if hasl l MixinTrustZoneMandatory then zlen (tz_export (m_tz x)) else 0) +
+  (if hasl l MixinRelocTable then (match m_table x with Some es => table_len es | None => 0 end) else 0) +
+  (if hasl l MixinCertBlockV1 then (match m_cert x with Some _ => cbn_ | None => 0 end) else 0) +
+  (if hasl l MixinKeyStore then opt_len (m_ks x) else 0) +
+  (if hasl l MixinHmacMandatory then (match m_hmac x with Some _ => 32 | None => 0 end) else 0).
+Proof.
+  intros Ha Hn Hc. induction l as [|m l IH]; [reflexivity|].
+  cbn [forallb] in Ha. apply andb_true_iff in Ha as [Ha1 Ha2].
+  cbn [nodupb] in Hn. apply andb_true_iff in Hn as [Hn1 Hn2]. apply negb_true_iff in Hn1.
+  specialize (IH Ha2 Hn2). cbn [map sumz fold_right]. fold (sumz (map (mix_len x) l)). rewrite IH.
+  unfold hasl in *. cbn [existsb].
+  destruct m; try discriminate Ha1; cbn [mix_len mixin_eqb mixin_id Z.eqb orb Pos.eqb]; rewrite ?Hn1; cbn [orb];
+    try (destruct (m_cert x) as [cb|] eqn:Ec; [rewrite (Hc cb eq_refl)|]);
+    change (Z.of_nat HMAC_SZ) with 32;
+    repeat match goal with |- context [if ?b then _ else _] => destruct b end; lia.
+Qed.
+
+Lemma givers_enc l : forallb allowed_enc l = true ->
+  existsb is_tz_giver l = (hasl l MixinTrustZone || hasl l MixinTrustZoneMandatory) /\
+  existsb (gives ATrustZone) l = (hasl l MixinTrustZone || hasl l MixinTrustZoneMandatory) /\
+  existsb (gives AHmacKey) l = hasl l MixinHmacMandatory /\ existsb (gives AKeyStore) l = hasl l MixinKeyStore /\
+  existsb is_cert_mixin l = hasl l MixinCertBlockV1 /\ existsb (gives ACertBlock) l = hasl l MixinCertBlockV1 /\
+  existsb is_hmac_mixin l = hasl l MixinHmacMandatory /\ existsb (gives ACtrIv) l = hasl l MixinCtrInitVector.
+Proof.
+  intros H. induction l as [|m l IH]; [repeat split; reflexivity|].
+  cbn [forallb] in H. apply andb_true_iff in H as [H1 H2]. destruct (IH H2) as (A1 & A2 & A3 & A4 & A5 & A6 & A7 & A8).
+  unfold hasl in *. cbn [existsb]. rewrite A1, A2, A3, A4, A5, A6, A7, A8.
+  destruct m; try discriminate H1; cbn; repeat split;
+    repeat match goal with |- context [existsb ?f ?l] => destruct (existsb f l) end; reflexivity.
+Qed.
+
+(* the encrypted image before the HMAC insertion *)
+Definition enc_inner (k : crypto) (enc_ivt E cb iv : list N) (alen : nat) : list N :=
+  (enc_ivt ++ sub E 64 alen ++ cb ++ firstn 56 E ++ iv ++ skipn alen E) ++
+  k_sign k (enc_ivt ++ sub E 64 alen ++ cb ++ firstn 56 E ++ iv ++ skipn alen E).
+
+Lemma bind_Ok {A B} (a : A) (f : A -> res B) : bind (Ok a) f = f a.
+Proof. reflexivity. Qed.
+
+Lemma export_enc_shape k c x im pre post sg :
+  wf_enc c = true -> (56 <= length (m_app x))%nat -> m_cert x = Some (CertV1 pre post sg) ->
+  (forall key data, length (k_hmac k key data) = 32%nat) -> (forall d, length (k_sign k d) = sg) ->
+  (forall key dv iv d, length (k_ctr k key dv iv d) = length d) ->
+  (forall b, m_ks x = Some b -> length b = 1424%nat /\ has_attr c AKeyStore = true) ->
+  0 <= m_subtype x < 4 -> 0 <= m_imgver x < 65536 ->
+  export_mbi k c x = Ok im ->
+  exists app' tb cb enc_ivt kb kt,
+    m_hmac x = Some (kb :: kt) /\ m_iv x <> [] /\
+    update_ivt c x (m_app x) (total_len c x + Z.of_nat sg + 56 + 16) (app_len c x) = Ok app' /\
+    table_part c x (zlen app') = Ok tb /\
+    let P := app' ++ tb ++ tzb_of x in
+    let E := k_ctr k (kb :: kt) (enc_derive x) (m_iv x) P in
+    update_ivt c x (firstn 64 E) (total_len c x + Z.of_nat sg + 56 + 16) (app_len c x) = Ok enc_ivt /\
+    cert_export (CertV1 pre post sg) (zlen E + Z.of_nat (cert_size (CertV1 pre post sg)) + 56 + zlen (m_iv x)) = Ok cb /\
+    64 <= app_len c x /\
+    let G := enc_inner k enc_ivt E cb (m_iv x) (natz (app_len c x)) in
+    im = firstn 64 G ++ hmac_bytes x (k_hmac k (kb :: kt) (firstn 64 G)) ++ skipn 64 G /\
+    (forall st, finalize_revert c st im = Ok G).
+Proof.
+  intros W L HC KH KS KC KSL R2 R3 E. unfold wf_enc in W. wf_split W.
+  rename W0 into Pfin, W1 into Psign, W2 into Ppost, W3 into Penc, W4 into Pdis, W5 into Pcol, W6 into Wiv, W7 into Whm,
+         W8 into Wtz, W9 into Wv1, W10 into Wt2, W11 into Wt1, W12 into Wi, W13 into Wa, W14 into Wnd.
+  apply Z.eqb_eq in Psign, Pdis, Pcol, Pfin, Penc, Ppost. apply opt_id_eq in Psign, Pdis, Pcol, Pfin, Penc, Ppost.
+  assert (R1 : 0 <= c_type c < 64) by (apply Z.ltb_lt in Wt1; apply Z.ltb_lt in Wt2; lia).
+  assert (SUP : existsb unsupported_mixin (c_mixins c) = false) by (apply (supported_if _ allowed_enc W); intros m Hm; apply (enc_def_none m Hm)).
+  unfold export_mbi, export_image in E. unfold supported in E. rewrite SUP in E. cbn [negb] in E.
+  destruct (validate c x) as [[]|] eqn:V; cbn [bind] in E; [|discriminate].
+  destruct (collect c x) as [segs|] eqn:C; cbn [bind] in E; [|discriminate].
+  assert (SH : exists app' rs, update_ivt c x (m_app x) (total_len c x + Z.of_nat sg + 56 + 16) (app_len c x) = Ok app' /\
+                 reloc_segment c x (zlen app') = Ok rs /\ segs = [app'] ++ rs ++ tz_segment x).
+  { unfold collect in C. rewrite Pcol, HC in C. destruct (m_app x) as [|b0 t0] eqn:Ea; [simpl in L; lia|].
+    apply bind_ok in C as (app' & U & C). apply bind_ok in C as (rs & RS & C). injection C as <-. eauto. }
+  destruct SH as (app' & rs & U & RS & ->).
+  pose proof (reloc_segment_flat' c x (zlen app') rs RS) as TB.
+  assert (FS : flat ([app'] ++ rs ++ tz_segment x) = app' ++ flat rs ++ tzb_of x).
+  { rewrite !flat_app, flat_tz_segment. unfold flat at 1. cbn [concat]. now rewrite app_nil_r. }
+  unfold encrypt in E. rewrite Penc in E.
+  destruct (m_hmac x) as [[|kb kt]|] eqn:HK; try discriminate E.
+  destruct (m_iv x) as [|iv0 ivt] eqn:HIV; [discriminate E|]. rewrite <- HIV in *. cbn [bind] in E. rewrite FS in E.
+  set (P := app' ++ flat rs ++ tzb_of x) in *. set (EE := k_ctr k (kb :: kt) (enc_derive x) (m_iv x) P) in *.
+  unfold post_encrypt in E. rewrite Ppost, HC in E.
+  assert (FE1 : flat [EE] = EE) by (unfold flat; cbn [concat]; apply app_nil_r). rewrite FE1 in E.
+  assert (RM : exists fin, bind (bind (update_ivt c x (firstn HMAC_OFF EE) (total_len c x + Z.of_nat sg + 56 + 16) (app_len c x))
+                             (fun enc_ivt => bind (cert_export (CertV1 pre post sg) (zlen EE + Z.of_nat (cert_size (CertV1 pre post sg)) + 56 + zlen (m_iv x)))
+                             (fun cb => Ok ([enc_ivt; sub EE HMAC_OFF (natz (app_len c x)); cb; firstn 56 EE; m_iv x] ++
+                                            match tz_export (m_tz x) with [] => [] | _ :: _ => [skipn (natz (app_len c x)) EE] end))))
+                             (fun enc2 => bind (sign k c x enc2) (fun sg0 => finalize k c x (fst sg0) (snd sg0))) = Ok fin /\ flat fin = im).
+  { match type of E with res_map flat ?r = Ok im => destruct r as [fin|] eqn:Q; [|discriminate E] end.
+    cbn [res_map] in E. injection E as E. exists fin. split; [exact Q | exact E]. }
+  clear E. destruct RM as (fin & E & EF).
+  apply bind_ok in E as (enc2 & PE2 & E). apply bind_ok in PE2 as (enc_ivt & UI & PE2). apply bind_ok in PE2 as (cb & CB & PE2).
+  injection PE2 as <-. change HMAC_OFF with 64%nat in UI. exists app', (flat rs), cb, enc_ivt, kb, kt.
+  split; [reflexivity|]. split; [rewrite HIV; discriminate|]. split; [exact U|]. split; [exact TB|]. cbv zeta. fold P. fold EE.
+  split; [exact UI|]. split; [exact CB|].
+  unfold sign in E. rewrite Psign in E. rewrite bind_Ok in E. cbv beta iota delta [fst snd] in E.
+  set (alen := natz (app_len c x)) in *.
+  set (segs2 := [enc_ivt; sub EE HMAC_OFF alen; cb; firstn 56 EE; m_iv x] ++ match tz_export (m_tz x) with [] => [] | _ :: _ => [skipn alen EE] end) in *.
+  assert (La : length app' = length (m_app x)) by (eapply update_ivt_length; eassumption).
+  pose proof (app_len_table c x (flat rs) app' Wnd Wa La TB) as AL.
+  assert (LE : length EE = (length app' + length (flat rs) + length (tzb_of x))%nat) by (unfold EE; rewrite KC; unfold P; rewrite !app_length; lia).
+  assert (NAL : alen = (length app' + length (flat rs))%nat) by (unfold alen; rewrite AL; unfold natz, zlen; rewrite <- Nat2Z.inj_add, Nat2Z.id; lia).
+  assert (FS2 : flat segs2 = enc_ivt ++ sub EE 64 alen ++ cb ++ firstn 56 EE ++ m_iv x ++ skipn alen EE).
+  { unfold segs2. rewrite flat_app. unfold flat at 1. cbn [concat]. rewrite app_nil_r. change HMAC_OFF with 64%nat. rewrite <- !app_assoc. do 5 f_equal.
+    unfold tzb_of in LE. destruct (tz_export (m_tz x)) as [|t0 tt0] eqn:Etz.
+    - cbn [length] in LE. symmetry. apply skipn_all2. lia.
+    - unfold flat. cbn [concat]. apply app_nil_r. }
+  assert (FI : flat (segs2 ++ [k_sign k (flat segs2)]) = enc_inner k enc_ivt EE cb (m_iv x) alen).
+  { rewrite flat_app, FS2. unfold enc_inner, flat. cbn [concat]. now rewrite app_nil_r. }
+  destruct (hmac_finalize_inverse k c x x (segs2 ++ [k_sign k (flat segs2)]) (flat segs2) Pfin) as [REJ _].
+  destruct (Z.ltb_spec (app_len c x) 64) as [Lt|Ge]; [rewrite (REJ Lt) in E; discriminate|]. split; [exact Ge|].
+  assert (L64 : (64 <= length EE)%nat) by (rewrite LE; rewrite AL in Ge; unfold zlen in Ge; lia).
+  assert (Lei : length enc_ivt = 64%nat).
+  { rewrite (update_ivt_length c x (firstn 64 EE) _ _ enc_ivt) by (try exact UI; rewrite firstn_length; lia). rewrite firstn_length. lia. }
+  destruct (ivt_words c x (firstn 64 EE) _ _ enc_ivt) as (_ & IW2 & _ & _); [rewrite firstn_length; lia | exact UI|].
+  pose proof (flags_decode_lemma c x R1 R2 R3) as (_ & _ & _ & _ & _ & F5 & _).
+  assert (ACC' : forall st, exists im', finalize k c x (segs2 ++ [k_sign k (flat segs2)]) (flat segs2) = Ok im' /\
+                   flat im' = firstn 64 (flat (segs2 ++ [k_sign k (flat segs2)])) ++
+                              hmac_bytes x (k_hmac k (match m_hmac x with Some key => key | None => [] end) (firstn 64 (flat (segs2 ++ [k_sign k (flat segs2)])))) ++
+                              skipn 64 (flat (segs2 ++ [k_sign k (flat segs2)])) /\
+                   finalize_revert c st (flat im') = Ok (flat (segs2 ++ [k_sign k (flat segs2)]))).
+  { intros st. destruct (hmac_finalize_inverse k c x st (segs2 ++ [k_sign k (flat segs2)]) (flat segs2) Pfin) as [_ ACC2].
+    apply ACC2; try assumption.
+    + rewrite FI. unfold enc_inner. rewrite !app_length, Lei. pose proof (cert_export_v1_len _ _ _ _ _ CB). lia.
+    + rewrite HK. eauto.
+    + intros b Hb. apply (KSL b Hb).
+    + rewrite FI. unfold flag_set, enc_inner. rewrite <- !app_assoc. rewrite get_flags_prefix by lia.
+      unfold get_flags. rewrite IW2, F5. destruct (m_ks x) as [b|] eqn:Eb; [|now rewrite andb_false_r].
+      destruct (KSL b eq_refl) as [Lb ->]. destruct b; [simpl in Lb; lia | reflexivity]. }
+  destruct (ACC' x) as (im' & FE & FL & _).
+  rewrite FE in E. injection E as <-. subst im. rewrite FL, FI, HK. split; [reflexivity|].
+  intros st. destruct (ACC' st) as (im2 & FE2 & FL2 & FR2). rewrite FE in FE2. injection FE2 as <-. rewrite FL, FI, HK in FR2. exact FR2.
 Qed.
